@@ -369,6 +369,10 @@ func execA(c caseA) (st stats, err error) {
 			if o.TRepl {
 				hdr = append(hdr, s3c.KV{K: "x-amz-tagging-directive", V: "REPLACE"}, s3c.KV{K: "x-amz-tagging", V: tagHeader(o.Tags)})
 			}
+			if o.Csum {
+				// the copy is to carry a checksum of this algorithm (computed by the gateway over the copied content)
+				hdr = append(hdr, s3c.KV{K: "x-amz-checksum-algorithm", V: strings.ToUpper(o.Algo)})
+			}
 			r, err := cl.Call("PUT", path(k), nil, hdr, nil)
 			if err != nil {
 				return st, fmt.Errorf("SETUP: transport: %v", err)
@@ -391,8 +395,16 @@ func execA(c caseA) (st stats, err error) {
 			if len(src.Parts) > 0 {
 				m.ETag = "" // S3 computes a fresh ETag for the copy of a multipart object; not judged
 			}
+			m.Chunked = src.Chunked
 			if o.Repl {
-				m.Hdrs, m.Meta = kvMap(o.Hdrs), kvMap(o.Meta)
+				m.Hdrs, m.Meta, m.Chunked = kvMap(o.Hdrs), kvMap(o.Meta), false
+			}
+			if o.Csum {
+				content := body(src.Seed, src.Len)
+				if len(src.Parts) > 0 {
+					content = mpuBody(src.Seed, src.Parts)
+				}
+				m.Sums[o.Algo] = s3c.Checksum(o.Algo, content)
 			}
 			if o.TRepl {
 				m.Tags = tagMap(o.Tags)
@@ -574,6 +586,16 @@ func checkRead(cl *s3c.Client, kind, path, key string, m *obj, where string) err
 	for k, v := range m.Hdrs {
 		if got := r.Header.Get(k); got != v {
 			return fmt.Errorf("%s: header %s reads back as %q, supplied %q", where, k, got, v)
+		}
+	}
+	// ... and no content header the last write did not supply (left over from the object it replaced)
+	for _, k := range []string{"Cache-Control", "Content-Disposition", "Content-Language", "Content-Encoding", "Expires"} {
+		supplied := false
+		for hk := range m.Hdrs {
+			supplied = supplied || strings.EqualFold(hk, k)
+		}
+		if got := r.Header.Get(k); !supplied && got != "" && !(k == "Content-Encoding" && m.Chunked) {
+			return fmt.Errorf("%s: header %s reads back as %q, the write the key holds supplied none", where, k, got)
 		}
 	}
 	gotMeta := map[string]string{}
